@@ -477,7 +477,8 @@ fn repetition_cycle(t: &Tables, b0: &BoardState, rng: &mut StdRng) -> Option<Vec
                 let m4s = generate_moves(p3, MoveGenerationMode::AllMoves, &t.hasher);
                 if let Some(p4) = m4s.iter().find(|m| printed_move(m) == rev(&t2)) {
                     if t.scratch_key(p4) == t.scratch_key(b0) && p4.board == b0.board {
-                        return Some(vec![t1.clone(), t2.clone(), rev(&t1), rev(&t2), t1.clone(), t2.clone(), rev(&t1)]);
+                        // two and a half cycles: 3 plies = second occurrence on offer, 7 = third, 11 = fourth
+                        return Some(vec![t1.clone(), t2.clone(), rev(&t1), rev(&t2), t1.clone(), t2.clone(), rev(&t1), rev(&t2), t1.clone(), t2.clone(), rev(&t1)]);
                     }
                 }
             }
@@ -653,9 +654,25 @@ pub fn scenarios(t: &Tables, seeds: &[String], seed: u64, n_small: usize, n_mate
             }
             b
         };
+        // the repetition clause bites when the side that can repeat (the side NOT to move in b0) is the weaker one
+        let mut bal = 0i32;
+        for row in BOARD_START..BOARD_END {
+            for col in BOARD_START..BOARD_END {
+                if let Square::Full(p) = b0.board[row][col] {
+                    let v = [0, 1, 3, 3, 5, 9, 0][((piece_code(Square::Full(p)) - 1) % 6 + 1) as usize];
+                    bal += if p.color == PieceColor::White { v } else { -v };
+                }
+            }
+        }
+        let repeater_white = b0.to_move == PieceColor::Black;
+        let repeater_ahead = if repeater_white { bal > 0 } else { bal < 0 };
+        if repeater_ahead && rng.gen_bool(0.85) {
+            continue;
+        }
         if let Some(cyc) = repetition_cycle(t, &b0, &mut rng) {
             // optionally an irreversible prefix is already part of b0's history: not needed, the record is rebuilt from the command
-            let keep = if rng.gen_bool(0.3) { 3 } else { 7 }; // 3 plies: a second occurrence only (count 1) as a control
+            // 3 plies: a second occurrence only (count 1, a control); 7: third occurrence on offer; 11: fourth
+            let keep = [3usize, 7, 7, 11, 11][rng.gen_range(0..5)];
             out.push(json!({"tag": "rep", "cmd": format!("position fen {} moves {}", to_fen(&b0, 0, 1), cyc[..keep].join(" "))}));
             count += 1;
         }
